@@ -94,6 +94,10 @@ let parse_uop (t : string list) : uop =
   | ["http_stop"; srv] -> UHttpStop (zi srv)
   | ["proxy_new"; app; node; port] -> UProxyNew (zi app, zi node, zi port)
   | ["proxy_stop"; app] -> UProxyStop (zi app)
+  | ["socks_new"; srv; node; port; ver; flags] -> USocksNew (zi srv, zi node, zi port, zi ver, zi flags)
+  | ["socks_stop"; srv] -> USocksStop (zi srv)
+  | ["socks_counts"; srv] -> USocksCounts (zi srv)
+  | ["socks_bind_start"; srv; port] -> USocksBindStart (zi srv, zi port)
   | ["tcp_write_bytes"; s; data; h] -> UTcpWriteBytes (zi s, hexbytes data, zi h)
   | ["tcp_read_raw"; s; bs; h] -> UTcpReadRaw (zi s, zi bs, zi h, false)
   | ["tcp_read_loop"; s; bs; h] -> UTcpReadRaw (zi s, zi bs, zi h, true)
